@@ -24,11 +24,13 @@ inductive Op (α : Type)
   | many (k : Nat)           -- fetchmany(k); k = 0 stands for fetchmany() / fetchmany(None) / fetchmany(0)
   | all                      -- fetchall()
   | setAs (n : Nat)          -- cursor.arraysize = n
+  | pandas                   -- fetch_pandas_all(): the whole result as a data frame, whatever was fetched before
 deriving Repr
 
 inductive Out (α : Type)
   | rows (rs : List α)       -- list returned by fetchmany / fetchall
   | row (r : Option α)       -- fetchone: a row or None
+  | frame (rs : List α)      -- fetch_pandas_all: the rows of the data frame (not "handed out": the read position does not move)
   | noResult                 -- TypeError("No open result set")
   | unit                     -- the op returns nothing observable
 deriving Repr, DecidableEq
@@ -62,6 +64,10 @@ def step {α} (c : Cur α) : Op α → Out α × Cur α
       | (none, c') => (.noResult, c')
       | (some l, c') => (.rows l, c')
   | .setAs n => (.unit, { c with arraysize := n })
+  | .pandas =>
+    match c.rows? with
+    | none => (.noResult, c)
+    | some rs => (.frame rs, c)
 
 def run {α} (c : Cur α) : List (Op α) → List (Out α) × Cur α
   | [] => ([], c)
@@ -103,6 +109,10 @@ def sstep {α} (c : SCur α) : Op α → Out α × SCur α
     | none => (.noResult, c)
     | some rs => (.rows (rs.drop c.pos), { c with pos := c.pos + (if rs.length = 0 then c.arraysize else rs.length) })
   | .setAs n => (.unit, { c with arraysize := n })
+  | .pandas =>
+    match c.res? with
+    | none => (.noResult, c)
+    | some rs => (.frame rs, c)
 
 def srun {α} (c : SCur α) : List (Op α) → List (Out α) × SCur α
   | [] => ([], c)
